@@ -297,7 +297,13 @@ func driveSlowStateListenerProbes(t *testing.T, name string) {
 			trials++
 			func() {
 				slow := func(circuitbreaker.StateChangedEvent) { time.Sleep(50 * time.Millisecond) }
-				b := circuitbreaker.Builder[int]().WithFailureThreshold(1).WithDelay(100 * time.Millisecond).WithSuccessThreshold(2)
+				// (generous margins: on a loaded machine goroutines start late -- the open period outlasts every arrival, and the
+				// half-open trials outlast every later arrival)
+				delay := 5 * time.Second
+				if which == "OnHalfOpen" {
+					delay = 100 * time.Millisecond
+				}
+				b := circuitbreaker.Builder[int]().WithFailureThreshold(1).WithDelay(delay).WithSuccessThreshold(2)
 				switch which {
 				case "OnOpen":
 					b = b.OnOpen(slow)
@@ -339,7 +345,7 @@ func driveSlowStateListenerProbes(t *testing.T, name string) {
 					time.Sleep(120 * time.Millisecond) // the delay has elapsed: the next arrival half-opens the breaker (slow listener), capacity 2
 					for i := 0; i < 2+arrivals; i++ {
 						wg.Add(1)
-						go arrive(200*time.Millisecond, false)
+						go arrive(1500*time.Millisecond, false)
 						time.Sleep(5 * time.Millisecond)
 					}
 					wg.Wait()
